@@ -1,6 +1,6 @@
 SPEC_PART = dict(
     props_file="C14_hll",
     legs=[dict(family="hll", focus="malformed", oracles=["no_panic"], profiles=["debug", "release"],
-               mask=[2, 3, 4, 5, 7, 8, 9], n_quick=200, n_thorough=4000, panic_is_violation=True)],
+               mask=[2, 3, 7, 8, 9], n_quick=200, n_thorough=4000, panic_is_violation=True)],
     trusted=[], assumptions=[], covers="hll: placeholder",
 )
